@@ -32,14 +32,15 @@ func FlagPlumbing(prop string) func(sc *core.Scratch, ev *core.Evidence, rep *co
 			return 2, err
 		}
 		type combo struct {
-			flags []string
-			req   gen.GenReq
+			flags    []string
+			req      gen.GenReq
+			trailing []string // flags written AFTER the positional arguments
 		}
 		base := gen.GenReq{SrcDir: filepath.Join(root, "p"), Cwd: root, Args: []string{"Store", "Other:PingerMock"}, Repeat: 1, FailAfter: -1}
 		mk := func(flags []string, f func(q *gen.GenReq)) combo {
 			q := base
 			f(&q)
-			return combo{flags, q}
+			return combo{flags: flags, req: q}
 		}
 		combos := []combo{
 			mk(nil, func(q *gen.GenReq) {}),
@@ -62,6 +63,17 @@ func FlagPlumbing(prop string) func(sc *core.Scratch, ev *core.Evidence, rep *co
 			}),
 			mk([]string{"-with-resets", "-fmt", "goimports", "-pkg", "mocks"}, func(q *gen.GenReq) { q.WithResets, q.Fmt, q.PkgName = true, "goimports", "mocks" }),
 		}
+		// flags after the positional arguments: moq as it is refuses them (flag parsing has
+		// stopped; the flag is looked up as an interface). Should a version accept them, every
+		// flag of the command line must be honoured - the ones in front included.
+		for _, t := range []combo{mk([]string{"-stub"}, func(q *gen.GenReq) { q.Stub, q.WithResets = true, true }), mk([]string{"-with-resets", "-pkg", "mocks"}, func(q *gen.GenReq) { q.WithResets, q.PkgName, q.Stub = true, "mocks", true })} {
+			if t.req.PkgName == "" {
+				t.trailing = []string{"-with-resets"}
+			} else {
+				t.trailing = []string{"-stub"}
+			}
+			combos = append(combos, t)
+		}
 		pool, err := gen.NewPool(8)
 		if err != nil {
 			return 2, err
@@ -81,7 +93,7 @@ func FlagPlumbing(prop string) func(sc *core.Scratch, ev *core.Evidence, rep *co
 			for attempt := 0; attempt < 3; attempt++ {
 				so.Reset()
 				se.Reset()
-				cmd := exec.Command(moq, append(append([]string{}, c.flags...), "p", "Store", "Other:PingerMock")...)
+				cmd := exec.Command(moq, append(append(append([]string{}, c.flags...), "p", "Store", "Other:PingerMock"), c.trailing...)...)
 				cmd.Dir, cmd.Env = root, moqEnv()
 				cmd.Stdout, cmd.Stderr = &so, &se
 				if runErr = cmd.Run(); runErr == nil {
@@ -92,6 +104,9 @@ func FlagPlumbing(prop string) func(sc *core.Scratch, ev *core.Evidence, rep *co
 			ev.Distinct("plumbing|" + strings.Join(c.flags, " "))
 			lib := resps[i]
 			if lib.Crash != "" || lib.Panic != "" || lib.Err != "" || runErr != nil {
+				if len(c.trailing) > 0 && runErr != nil {
+					continue // refused, as predicted by spec/Cli.tla (args = flagslast)
+				}
 				if (lib.Err != "") != (runErr != nil) {
 					rep.DriftNote(fmt.Sprintf("flag plumbing %v: library err=%q, command line err=%v %s", c.flags, lib.Err, runErr, firstLine(se.String())))
 				}
